@@ -52,6 +52,18 @@ CHECKS = {
              "save_when <= EXPLICIT leniency accepted as documented.",
         technique="property-based testing + exhaustive small-scope enumeration with a validity predicate over histories",
     ),
+    "C10": dict(
+        category="exploration",
+        text="Stored layouts (independent chunkings, encodings, rechunk on save / load) x ranges with endpoints on, "
+             "just inside and just outside every row and chunk edge (exhaustive pair sweep on small runs) x three "
+             "range forms x both time-selection modes x selections x column projections x both processors x single "
+             "and same-kind multi targets; oracle project(select(time_filter(reference))) written from the "
+             "docstrings; explicit error / empty result clauses; storage listing unchanged by partial requests.",
+        design_ref="DESIGN.md §5 C10",
+        note="DataDirectory only; seconds ranges on exactly representable units; multi-target cases steer around "
+             "known finding F13 (counted).",
+        technique="property-based testing + exhaustive endpoint-pair sweep vs reference model",
+    ),
     "C11": dict(
         category="exploration",
         text="An independent planner reference (which plugins run, what is loaded, what is saved per frontend, "
